@@ -99,11 +99,14 @@ def noiseReceive (cfg : Cfg) (spec : Nat → UpSpec) (n p frame : Nat) (s : St) 
 inductive Op
   | send (fail : Option Nat)          -- application sends from the top
   | recv (frame : Nat)                -- a frame arrives at the noise layer
+  | enq (frame : Nat)                 -- a frame arrives while the handshake is still running: it is only queued
+                                      -- (delivered by the flush at the next receive / at the switch to transport)
 deriving Repr, DecidableEq
 
 def step (cfg : Cfg) (spec : Nat → UpSpec) (n p : Nat) (s : St) : Op → St × Res
   | .send fail => sendAt cfg fail (n - 1) s
   | .recv frame => noiseReceive cfg spec n p frame s
+  | .enq frame => ({ s with queue := s.queue ++ [frame] }, .ok)
 
 /-- run a sequence of operations (each issued after the previous one returned or raised — by any
     thread: the locks have no owner); collects the results -/
